@@ -244,3 +244,45 @@ func vc_C17_chamfer()      { vfSmoothCorner(1, true, vfCase("fit", 2) == 1, fals
 // thorough: the rotated points as well (last tangent point, all points on the circle, tangency)
 func vt_C17_chamfer_circle() { vfSmoothCorner(1, true, true, true) }
 func vt_C17_smooth_circle()  { vfSmoothCorner(1+vfCase("facets", 2), false, true, true) }
+
+// experimental: corner given by its angle (unit pair), Normalize by contract
+func vt_C17_corner_polar() {
+	vfTimeouts(10000, 60000)
+	facets := 1
+	c, s := vfReal("cos"), vfReal("sin")
+	vfAssume(c*c+s*s == 1)
+	vfAssume(vfAnd(c <= 0.99, c >= -0.99))
+	la, lb, r := vfPosParam("la", 50), vfPosParam("lb", 50), vfPosParam("r", 50)
+	vfAssume(la >= 0.1)
+	vfAssume(lb >= 0.1)
+	vfAssume(r >= 0.01)
+	vfStub("(github.com/deadsy/sdfx/vec/v2.Vec).Normalize", func(a v2.Vec) v2.Vec {
+		k := vfReal("normalize.k")
+		vfAssume(k > 0)
+		vfAssume(k*k*(a.X*a.X+a.Y*a.Y) == 1)
+		return v2.Vec{X: a.X * k, Y: a.Y * k}
+	})
+	A, V, B := v2.Vec{X: la}, v2.Vec{}, v2.Vec{X: lb * c, Y: lb * s}
+	p := NewPolygon()
+	p.AddV2(A)
+	p.AddV2(V).Smooth(r, facets)
+	p.AddV2(B)
+	// fits: r (1+c) <= l^2 ... d = r sqrt((1+c)/(1-c)); d <= la, lb
+	fits := vfAnd(r*r*(1+c) <= la*la*(1-c), r*r*(1+c) <= lb*lb*(1-c))
+	vfAssume(fits)
+	out := p.Vertices()
+	vfReach("corner")
+	vfAssert(len(out) == facets+3, "count")
+	if len(out) != facets+3 {
+		return
+	}
+	tol := 1e-9
+	near := func(x, y float64) bool { return vfAnd(x-y <= tol, y-x <= tol) }
+	p0, p1 := out[1], out[facets+1]
+	d2 := p0.Length2()
+	vfAssert(near(d2*(1-c), r*r*(1+c)), "p0 distance")
+	vfAssert(near(p0.Y, 0), "p0 on x axis")
+	vfAssert(near(p1.Length2(), d2), "p1 distance")
+	vfAssert(near(p1.X*s-p1.Y*c, 0), "p1 on the second edge")
+	vfAssert(p1.X*c+p1.Y*s > 0, "p1 on the positive side")
+}
